@@ -362,7 +362,8 @@ template <class KT, int KIND> static void history(Ck<KT, KIND>& ck, Rng& r, long
     case 8:   // copy-construct, check, mutate the copy, check independence
       if constexpr (KIND != PMAP) {
         setctxf("%s.copy-construct/%s", CK::cname(), m.ref.n ? "non-empty" : "empty"); hist.add("copy-construct; mutate the copy; destroy it\n");
-        Box cp; cp.c = new C(*m.c); cp.ref = m.ref; cp.cap = 500;
+        Box cp; cp.c = new C(*m.c); cp.ref = m.ref; cp.cap = cp.c->capacity;   // the capacity of a copy is not specified: take what the library chose, the walker checks placement against it
+        if (!cp.cap) fail("copy-construct/capacity", "copy has capacity 0");
         ck.all(cp, universe, true); ck.equality(cp, m);
         setctxf("%s.copy-construct/independence", CK::cname());
         switch (r.below(4)) { case 0: cp.c->clear(); cp.ref.clear(); break; case 1: if (cp.ref.n) { cp.c->removeFront(); cp.ref.removeAt(0); } break; case 2: if (cp.ref.n) { cp.c->removeBack(); cp.ref.pop(); } break; default: break; }
@@ -375,8 +376,8 @@ template <class KT, int KIND> static void history(Ck<KT, KIND>& ck, Rng& r, long
       break;
     case 9:   // other = m (onto empty / non-empty), or replace other by a copy-constructed table (capacity 500)
       if constexpr (KIND != PMAP) {
-        if (r.chance(1, 4)) { setctxf("%s.copy-construct/%s", CK::cname(), m.ref.n ? "non-empty" : "empty"); hist.add("other := new copy of m\n"); C* nc = new C(*m.c); setctxf("%s.destructor", CK::cname()); delete other.c; other.c = nc; other.cap = 500; other.ref = m.ref; setctxf("%s.copy-construct/%s", CK::cname(), m.ref.n ? "non-empty" : "empty"); cnt("op_copy_construct"); }
-        else { setctxf("%s.operator=/onto-%s", CK::cname(), other.ref.n ? "non-empty" : "empty"); hist.add("other = m\n"); setItem("assign_classes", other.ref.n ? (m.ref.n ? "nonempty=nonempty" : "nonempty=empty") : (m.ref.n ? "empty=nonempty" : "empty=empty")); *other.c = *m.c; other.ref = m.ref; cnt("op_assign"); }
+        if (r.chance(1, 4)) { setctxf("%s.copy-construct/%s", CK::cname(), m.ref.n ? "non-empty" : "empty"); hist.add("other := new copy of m\n"); C* nc = new C(*m.c); setctxf("%s.destructor", CK::cname()); delete other.c; other.c = nc; other.cap = nc->capacity; other.ref = m.ref; setctxf("%s.copy-construct/%s", CK::cname(), m.ref.n ? "non-empty" : "empty"); cnt("op_copy_construct"); }
+        else { setctxf("%s.operator=/onto-%s", CK::cname(), other.ref.n ? "non-empty" : "empty"); hist.add("other = m\n"); setItem("assign_classes", other.ref.n ? (m.ref.n ? "nonempty=nonempty" : "nonempty=empty") : (m.ref.n ? "empty=nonempty" : "empty=empty")); *other.c = *m.c; other.ref = m.ref; other.cap = other.c->capacity; cnt("op_assign"); }
         otherTouched = true;
       }
       break;
